@@ -9,7 +9,7 @@
    The second group is about the CONTENTS of the tables ("cannot corrupt symbol
    lookup"): the machine of Conc/Intern.v runs GetSymHash / SymHash2Str of any number
    of threads with every critical section as one step; the driver checks on every run
-   (translator dumpwrites) that every function of /repo/object that writes one of the
+   (critical-section numbers of the translator dumpsites) that every function of /repo/object that writes one of the
    two tables writes the other one in the same critical section, which is the
    [split = false] machine of these theorems. *)
 From Coq Require Import List.
